@@ -124,13 +124,17 @@ theorem dec_scalar (t : Ty) (o : FieldOpt) (v : Val) (efl dfl : Flags)
           exact decode_encode_int _ (.inl rfl) i efl dfl cur f hz h1 h2 hw
         case i64 =>
           obtain ⟨h1, h2⟩ := inRange_signed _ i (by simp) hv
-          simp only [codecFor, codecOf]
-          exact decode_encode_int _ (.inr rfl) i efl dfl cur f hz h1 h2 hw
+          simp only [codecFor]
+          split
+          · exact decode_encode_sfixed64 i efl dfl cur f h1 h2 hw
+          · exact decode_encode_int _ (.inr rfl) i efl dfl cur f hz h1 h2 hw
         case i32 =>
           have := inRange_spec _ i hv
           simp only [IntKind.signed, IntKind.bits, if_true, Nat.reduceSub] at this
-          simp only [codecFor, codecOf]
-          exact decode_encode_int32 i efl dfl cur f hz this.1 this.2 hw
+          simp only [codecFor]
+          split
+          · exact decode_encode_sfixed32 i efl dfl cur f this.1 this.2 hw
+          · exact decode_encode_int32 i efl dfl cur f hz this.1 this.2 hw
         case uint =>
           obtain ⟨h1, h2⟩ := inRange_unsigned _ i (by simp) hv
           simp only [codecFor, codecOf]
